@@ -294,6 +294,54 @@ def scalar_codecs(ck, agg):
     return n
 
 
+def pa_level_codec(ck, agg, b):
+    """R19.4 for the TX-power structure (type 0x0A): the byte the advertiser encodes and the byte the receiver decodes into `pa_level` agree in
+    width and signedness (-18 dBm must not come back as 238)"""
+    from . import c18
+    P = ck.prog
+    f_mk = P.method(b.cls, "_make_payload")
+    st, pl = c18.scenario(b, True, False)
+    encs = set()
+    for out in b.run(f_mk, [pl], st):
+        if out.kind != "return" or not isinstance(out.value, Bytes):
+            continue
+        parts = [p[0] for p in out.value.parts]
+        for i_, t in enumerate(parts[:-1]):
+            if t[0] == "items" and len(t[2]) == 2 and const_of(norm(t[2][1])) == TB.AD_TX_POWER:
+                ef = _enc_field(Bytes([(parts[i_ + 1], Const(1))], "bytes"))
+                if ef is not None:
+                    encs.add(ef)
+    ck.analysed(f_mk)
+    qe = P.cls("fake_ble", "QueueElement")
+    f_dec = P.method(qe, "_decode_data_struct")
+    st3 = State()
+    el = st3.alloc("obj", cls=qe, label="elem")
+    st3.heap[el.ident].fields["data"] = st3.alloc("list", items=[])
+    st3.heap[el.ident].fields["pa_level"] = Const(None)
+    buf = st3.alloc("bytearray", items=[Const(0x0A), Sym(("tail", 0), "int", rng=(0, 255))], label="buf")
+    it3 = Interp(P, Model(), Limits())
+    decs = set()
+    for out in it3.run(f_dec, qe, el, [buf], st=st3):
+        if out.kind != "return":
+            agg.add("R19.4", f_dec, "decoding a TX-power structure does not raise", False, "raises %s" % out.value.exc)
+            continue
+        v = out.state.heap[el.ident].fields.get("pa_level")
+        df = _dec_field(v)
+        if df is None and isinstance(norm(v), Sym) and norm(v).name == ("tail", 0):
+            df = (1, False, "little")
+        rng_ = getattr(norm(v), "attrs", {}).get("rng") if isinstance(norm(v), Sym) else None
+        if df is None and rng_ is not None and rng_[0] is not None and rng_[1] is not None:
+            df = (1, rng_[0] < 0, "little")          # sign fixed up by hand: the value's range tells
+        decs.add(df)
+    ck.absorb(it3)
+    ck.analysed(f_dec)
+    if not encs or not decs or None in decs:
+        raise AnalysisError("PA level AD: encoded / decoded field not understood (enc %r, dec %r)" % (encs, decs))
+    agg.add("R19.4", f_dec, "the advertised PA level is a signed byte on both sides", len(encs) == 1 and len(decs) == 1 and list(encs)[0][:2] == (1, True) and list(decs)[0][:2] == (1, True),
+            "advertiser encodes %r, receiver decodes %r  (size, signed, byte order): a negative PA level is received as a large positive number" % (sorted(encs), sorted(decs)))
+    return 1
+
+
 def _mutates_queue(f):
     from .common import attr_mutations
     return bool(attr_mutations(f.node, "rx_queue"))
@@ -449,6 +497,7 @@ def run(ck):
     n3 = signedness(ck, agg)
     n4 = rx_queue_discipline(ck, agg, b)
     n5 = url_tables(ck, agg)
+    n6 = pa_level_codec(ck, agg, b)
     # reception de-whitens with the coefficient of the channel index: "received on the same channel" needs the index to name the frequency
     # the radio is tuned to after every hop_channel() / `channel = x` (C18's paired-update rule R18.4, re-run here)
     from . import c18
